@@ -50,7 +50,7 @@ def check(ctx):
             rd = ("obj", oid)
             kw = dict(o.ctor[3])
     if wr is None or rd is None:
-        raise AnalysisError("C16", comp.site, "Stack: memory ports not found")
+        raise AnalysisError("C16", comp.site, "Stack: memory ports not found", missing="Stack: memory ports not found")
     tf = kw.get("transparent_for", ("list",))
     ctx.check(kw.get("domain", ("c", "sync")) == ("c", "sync") and tf[0] == "list" and wr in tf[1:], "C16.read-port-transparent", ex.obj(rd).site, "Stack.read_port", found=tstr(ex.obj(rd).ctor),
               required="synchronous read port transparent for the write port (a pushed element is the head next cycle)")
